@@ -18,6 +18,9 @@ type HostSpec struct {
 	// HandlerPlan: behaviour of successive handler calls: 'v' value, 'e' error, 'n' nil value, 'r' re-entrant RunExpr then value,
 	// 'p' the callback panics, 'd' the callback rolls a die on the evaluating context's generator.
 	HandlerPlan string `json:",omitempty"`
+	// ReuseResult: the callback refills and returns one value object for all its calls (the library
+	// uses a returned value by copy, so this is a legitimate way to write a callback).
+	ReuseResult bool `json:",omitempty"`
 	// Inert extensions (must change nothing).
 	NeverRegex   bool `json:",omitempty"` // regex customs that never match
 	NeverStream  int  `json:",omitempty"` // stream parser that reads ahead N runes then declines (0 = off)
@@ -52,6 +55,7 @@ type Host struct {
 	StCalls  []string
 	handlerN int
 	Returned []*ds.VMValue
+	shared   *ds.VMValue
 	Meter    *Meter
 	GlobalStore map[string]*ds.VMValue
 	Fired    map[string]int
@@ -139,6 +143,14 @@ func (h *Host) Install(vm *ds.Context) {
 			// groups may be scribbled on by a handler: the VM must have passed a copy
 			for i := range groups {
 				groups[i] = "scribbled"
+			}
+			if s.ReuseResult {
+				if h.shared == nil {
+					h.shared = ds.NewIntVal(0)
+				}
+				h.shared.TypeId, h.shared.Value = ds.VMTypeInt, ds.IntType(n)
+				h.Fired["callback_reuses_result_object"]++
+				return h.shared, "", nil
 			}
 			v := ds.NewIntVal(ds.IntType(n))
 			h.Returned = append(h.Returned, v)
